@@ -6,4 +6,3 @@ import OHVerif.Lemmas.Prim
 import OHVerif.Lemmas.FinFun
 import OHVerif.Props.C06
 import OHVerif.Props.C07
-import OHVerif.Props.C08
